@@ -27,6 +27,7 @@ const (
 	OutSilentDrop // no reply; the connection is reset later (a held peer action)
 	OutDropNow    // the connection is reset when the request arrives
 	OutHostile    // a malformed / unexpected reply (C17); Hostile selects the behaviour
+	OutRawError   // an ERROR response the proxy's codec library cannot decode (an error code or a write type newer than the library): RawCode, RawTail
 	OutHang       // no reply, and the connection answers nothing from now on (not even heartbeats): the proxy has to give it up itself (idle timeout)
 )
 
@@ -36,6 +37,8 @@ type Outcome struct {
 	Err     message.Error // for OutError
 	Name    string        // short label used in traces and oracles
 	Hostile int
+	RawCode int32  // for OutRawError: the error code ...
+	RawTail []byte // ... and what follows the message string in the body
 }
 
 func (o Outcome) String() string { return o.Name }
@@ -93,6 +96,7 @@ type Node struct {
 	// RespCompress: 0 follow the request's connection setting for every frame, 1 never, 2 per-frame choice
 	RespCompress  int
 	AuthUser      string // if set, PasswordAuthenticator with this user/password
+	RefuseNew     bool   // the node accepts no new connections (a node that left the ring has stopped its native transport; connections it still has linger)
 	AuthDSE       bool   // ... as a DSE node does it: mechanism name first, then a challenge round
 	AuthPass      string
 	ConnsSeen     int
@@ -198,7 +202,12 @@ func (c *BackendConn) reply(stream int16, msg message.Message, att *Attempt, des
 			frm.SetCompress(w.C.Choose("respcompress", 2) == 0)
 		}
 	}
-	raw := encodeFrame(c.Compression, frm)
+	c.replyBytes(stream, encodeFrame(c.Compression, frm), att, desc)
+}
+
+// replyBytes sends (or holds for later release) an encoded response frame.
+func (c *BackendConn) replyBytes(stream int16, raw []byte, att *Attempt, desc string) {
+	w := c.Node.w
 	if c.Out != nil {
 		if att != nil {
 			att.Replied, att.ReplyRaw = true, raw
@@ -545,6 +554,18 @@ func (c *BackendConn) applyOutcome(out Outcome, stream int16, att *Attempt, tok 
 	case OutError:
 		w.Stat("backend.err." + out.Name)
 		c.reply(stream, withToken(out.Err, tok), att, "ERROR("+out.Name+") "+tok)
+	case OutRawError:
+		w.Stat("backend.err." + out.Name)
+		msg := out.Name + " " + tok
+		body := []byte{byte(out.RawCode >> 24), byte(out.RawCode >> 16), byte(out.RawCode >> 8), byte(out.RawCode), byte(len(msg) >> 8), byte(len(msg))}
+		body = append(append(body, msg...), out.RawTail...)
+		if w.ExoticBodies == nil {
+			w.ExoticBodies = map[string]string{}
+		}
+		w.ExoticBodies[string(body)] = out.Name
+		v := byte(c.Version) | 0x80
+		raw := append([]byte{v, 0, byte(stream >> 8), byte(stream), 0x00, byte(len(body) >> 24), byte(len(body) >> 16), byte(len(body) >> 8), byte(len(body))}, body...)
+		c.replyBytes(stream, raw, att, "ERROR("+out.Name+") "+tok)
 	case OutSilentDrop:
 		w.Stat("backend.silent_drop")
 		w.hold(&heldReply{conn: c, att: att, desc: "DROP-AFTER-SILENCE " + tok, drop: true})
